@@ -116,6 +116,17 @@ pub fn sub(seed: u64) -> Program {
         main.push(Op::AddSub { store: 0, sub: subs.len() - 1, reg: regs });
         regs += 1;
     }
+    // sometimes the unsubscribing is done by a thread of its own that is only joined after stop():
+    // an unsubscribe() still flushing a slow subscriber then overlaps the shutdown
+    let mut straggler: Option<usize> = None;
+    if g.rng.chance(30) {
+        let mine: Vec<(usize, Op)> = late_ops.iter().filter(|(_, o)| matches!(o, Op::Unsub { .. })).cloned().collect();
+        if !mine.is_empty() {
+            late_ops.retain(|(_, o)| !matches!(o, Op::Unsub { .. }));
+            threads.push(mine.into_iter().map(|(_, o)| o).collect());
+            straggler = Some(threads.len() - 1);
+        }
+    }
     // place late ops; an Unsub must come after its AddSub when both are in the same thread;
     // across threads the race is the point (an Unsub that finds no handle is skipped)
     for (t, op) in late_ops {
@@ -144,6 +155,25 @@ pub fn sub(seed: u64) -> Program {
             ops.push(Op::Next { it, n: g.rng.range(0, 2) as usize });
             ops.push(Op::DropIter { it });
         } else {
+            // the consumer may use the rest of the (non-blocking) API between two next() calls
+            if g.rng.chance(35) {
+                for _ in 0..g.rng.range(1, 3) {
+                    ops.push(Op::Next { it, n: 1 });
+                    match g.rng.below(3) {
+                        0 => ops.push(Op::GetState { store: 0 }),
+                        1 => {
+                            subs.push(direct(false));
+                            ops.push(Op::AddSub { store: 0, sub: subs.len() - 1, reg: regs });
+                            regs += 1;
+                        }
+                        _ => {
+                            if regs > 1 {
+                                ops.push(Op::Unsub { reg: g.rng.range(1, regs as u64 - 1) as usize });
+                            }
+                        }
+                    }
+                }
+            }
             ops.push(Op::Drain { it });
             if g.rng.chance(50) {
                 ops.push(Op::DropIter { it });
@@ -167,8 +197,14 @@ pub fn sub(seed: u64) -> Program {
     for t in 1..nprod_threads {
         main.push(Op::Join { thread: t });
     }
+    if straggler.is_some() && g.rng.chance(50) {
+        main.push(Op::Sleep { ms: 50 });
+    }
     main.push(Op::Stop { store: 0 });
     for t in consumers {
+        main.push(Op::Join { thread: t });
+    }
+    if let Some(t) = straggler {
         main.push(Op::Join { thread: t });
     }
     main.push(Op::GetState { store: 0 });
@@ -246,7 +282,18 @@ pub fn api(seed: u64) -> Program {
                     let it = iters;
                     iters += 1;
                     ops.push(Op::Iter { store: 0, it });
-                    extra_threads.push(vec![Op::Drain { it }]);
+                    let mut cons = vec![];
+                    if g.rng.chance(40) {
+                        // non-blocking API calls between two next() calls of the consuming thread
+                        cons.push(Op::Next { it, n: 1 });
+                        subs.push(SubCfg { kind: SubKind::Direct, read_state: false, gate: None, sleep_ms: 0, shared: false });
+                        cons.push(Op::AddSub { store: 0, sub: subs.len() - 1, reg: regs });
+                        cons.push(Op::Next { it, n: 1 });
+                        cons.push(Op::Unsub { reg: regs });
+                        regs += 1;
+                    }
+                    cons.push(Op::Drain { it });
+                    extra_threads.push(cons);
                     ops.push(Op::Start { thread: 1000 + extra_threads.len() - 1 });
                 }
                 15 => {
